@@ -96,7 +96,7 @@ class PaneBase:
     def __class_getitem__(cls, params: t.Union[type, t.Tuple[type, ...]]):
         if not isinstance(params, tuple):
             params = (params,)
-        return _make_subclass(cls, params)
+        return _make_subclass(cls, params, _ordered_key(params))
 
     def __repr__(self) -> str:
         inside = ", ".join(
@@ -409,8 +409,20 @@ class PaneOptions:
         return dataclasses.replace(self, **{k: v for (k, v) in changes.items() if v is not None})
 
 
+def _ordered_key(ty: t.Any) -> t.Any:
+    """
+    Cache key which tells apart types that compare equal but convert differently:
+    ``Union[int, float] == Union[float, int]``, yet unions are tried left to right.
+    """
+    if isinstance(ty, (tuple, list)):
+        return tuple(map(_ordered_key, ty))
+    args = t.get_args(ty)
+    return (ty, _ordered_key(args)) if args else ty
+
+
 @functools.lru_cache(maxsize=256)
-def _make_subclass(cls: t.Any, params: t.Tuple[t.Any, ...]) -> type:
+def _make_subclass(cls: t.Any, params: t.Tuple[t.Any, ...], _key: t.Any = None) -> type:
+    # `_key` only takes part in the cache lookup (see `_ordered_key`)
     sup: t.Any = super(PaneBase, cls)
     if not hasattr(sup, '__class_getitem__'):
         raise TypeError(f"type '{cls}' is not subscriptable")
